@@ -27,6 +27,9 @@ func errVal(err error) string {
 		}
 		return VC("InvalidValue", VS(e.Key), VS(e.Reason), VS(exp), VS(e.Actual))
 	case saml2.ErrParsing:
+		if e.Type != "time.RFC3339" {
+			return VC("Parsing", VS(e.Tag), VS(e.Value), VS(e.Type)) // the model always says time.RFC3339 (arity mismatch = reported)
+		}
 		return VC("Parsing", VS(e.Tag), VS(e.Value))
 	case saml2.ErrVerification:
 		return VC("Verification", errVal(e.Cause))
